@@ -1156,6 +1156,7 @@ class TermCanvas(Canvas):
                 # clear all attributes
                 fg = bg = None
                 attributes.clear()
+                colors = 1
 
             idx += 1
 
@@ -1190,9 +1191,6 @@ class TermCanvas(Canvas):
         """
         Set graphics rendition.
         """
-        if attrs[-1] == 0:
-            self.attrspec = None
-
         attributes = set()
         if self.attrspec is None:
             fg = bg = None
